@@ -64,6 +64,180 @@ func inWindow(p uint32) bool { return p < 0xF00000 || (p >= 0xF50000 && p < 0xF7
 
 func sysbank(b uint32) bool { return b <= 0x3F || (b >= 0x80 && b <= 0xBF) }
 
+// ---- C05 clause (v): the documented region tables, an independent copy as Go data ----
+// Transcribed a second time (not generated from coq/Spec/MapSpec.v) from the comments in
+// mapping/<mapper>/mapping.go and the rows of the passing TestBusAddressToPak tables, in a
+// different encoding: rows follow the comments' own bank splits and carry the ABSOLUTE FX Pak Pro
+// address of the region's first byte (the Coq tables carry class + linear position inside the class).
+// The Coq theorem C05_region_<m> says code = Coq table and this clause says code = Go table, over
+// all 2^24 addresses, so when both pass the two transcriptions are extensionally equal.
+type layoutKind int
+
+const (
+	half32K layoutKind = iota // ((bank-b0)<<15) + (offs & 0x7FFF)   packed half-banks (util.BankToLinear)
+	full64K                   // ((bank-b0)<<16) + offs              whole banks, linear
+	page8K                    // ((bank-b0)<<13) + (offs & 0x1FFF)   one 8 KiB window per bank, packed
+	image8K                   // offs & 0x1FFF                       the same 8 KiB block everywhere
+)
+
+const (
+	clsROM  = 1
+	clsSRAM = 2
+	clsWRAM = 3
+)
+
+var className = map[int]string{clsROM: "ROM", clsSRAM: "SRAM", clsWRAM: "WRAM"}
+
+type region struct {
+	bankLo, bankHi uint32 // inclusive
+	offLo, offHi   uint32 // inclusive
+	class          int
+	pak            uint32 // FX Pak Pro address of bankLo:offLo
+	layout         layoutKind
+	doc            string // the comment / test rows the row was read from
+}
+
+func (r *region) covers(bank, offs uint32) bool {
+	return r.bankLo <= bank && bank <= r.bankHi && r.offLo <= offs && offs <= r.offHi
+}
+
+func (r *region) place(bank, offs uint32) uint32 {
+	k := bank - r.bankLo
+	switch r.layout {
+	case half32K:
+		return r.pak + (k << 15) + (offs & 0x7FFF)
+	case full64K:
+		return r.pak + (k << 16) + offs
+	case page8K:
+		return r.pak + (k << 13) + (offs & 0x1FFF)
+	}
+	return r.pak + (offs & 0x1FFF)
+}
+
+// rows shared by several mappers (each mapper's comments repeat them)
+func wram7E() region {
+	return region{0x7E, 0x7F, 0x0000, 0xFFFF, clsWRAM, 0xF50000, full64K, "WRAM access: banks $7E-$7F; $7E:0000->$F50000 $7F:FFFF->$F6FFFF"}
+}
+func lowWRAM(lo, hi uint32) region {
+	return region{lo, hi, 0x0000, 0x1FFF, clsWRAM, 0xF50000, image8K, "Lower 8KiB of WRAM; $xx:0000->$F50000 $xx:1FFF->$F51FFF"}
+}
+
+var regionTables = map[string][]region{
+	"lorom": {
+		{0xF0, 0xFF, 0x8000, 0xFFFF, clsROM, 0x180000, half32K, "ROM access: $F0:8000-$F0:FFFF; $F0:8000->$180000 $FF:FFFF->$1FFFFF"},
+		{0xF0, 0xFF, 0x0000, 0x7FFF, clsSRAM, 0xE00000, half32K, "SRAM access: $F0:0000-$FF:7FFF; $F0:0000->$E00000 $FF:0000->$E78000"},
+		{0x80, 0xBF, 0x8000, 0xFFFF, clsROM, 0x000000, half32K, "ROM access: $80:8000-$EF:FFFF (bank & $3F); $80:FFC0->$007FC0"},
+		{0xC0, 0xEF, 0x8000, 0xFFFF, clsROM, 0x000000, half32K, "ROM access: $80:8000-$EF:FFFF (bank & $3F); $C0:FFC0->$007FC0 header shadow"},
+		lowWRAM(0x80, 0xEF),
+		wram7E(),
+		{0x70, 0x7D, 0x8000, 0xFFFF, clsROM, 0x180000, half32K, "ROM access: $70:8000-$7D:FFFF; $70:8000->$180000 $7D:FFFF->$1EFFFF"},
+		{0x70, 0x7D, 0x0000, 0x7FFF, clsSRAM, 0xE00000, half32K, "SRAM access: $70:0000-$7D:7FFF; $70:0000->$E00000 $7D:7FFF->$E6FFFF"},
+		{0x00, 0x3F, 0x8000, 0xFFFF, clsROM, 0x000000, half32K, "ROM access: $00:8000-$6F:FFFF (bank & $3F); $00:FFC0->$007FC0"},
+		{0x40, 0x6F, 0x8000, 0xFFFF, clsROM, 0x000000, half32K, "ROM access: $00:8000-$6F:FFFF (bank & $3F); $40:FFC0->$007FC0 header shadow"},
+		lowWRAM(0x00, 0x6F),
+	},
+	"hirom": {
+		{0xFE, 0xFF, 0x0000, 0xFFFF, clsROM, 0x3E0000, full64K, "ROM access: $FE:0000-$FF:FFFF; $FE:0000->$3E0000 $FF:FFFF->$3FFFFF"},
+		{0xC0, 0xFD, 0x0000, 0xFFFF, clsROM, 0x000000, full64K, "ROM access: $C0:0000-$FD:FFFF; $C0:0000->$000000 $FD:FFFF->$3DFFFF"},
+		{0xA0, 0xBF, 0x8000, 0xFFFF, clsROM, 0x100000, half32K, "ROM access: $A0:8000-$BF:FFFF; $A0:8000->$100000 $A1:8000->$108000"},
+		{0xA0, 0xBF, 0x6000, 0x7FFF, clsSRAM, 0xE00000, page8K, "SRAM access: $A0:6000-$BF:7FFF; $A1:6000->$E02000 $BF:7FFF->$E3FFFF"},
+		lowWRAM(0xA0, 0xBF),
+		{0x80, 0x9F, 0x8000, 0xFFFF, clsROM, 0x000000, half32K, "ROM access: $80:8000-$9F:FFFF; $80:8000->$000000 $9F:FFFF->$0FFFFF"},
+		lowWRAM(0x80, 0x9F),
+		wram7E(),
+		{0x40, 0x7D, 0x0000, 0xFFFF, clsROM, 0x000000, full64K, "ROM access: $40:0000-$7D:FFFF; $40:0000->$000000 $7D:FFFF->$3DFFFF"},
+		{0x20, 0x3F, 0x8000, 0xFFFF, clsROM, 0x100000, half32K, "ROM access: $20:8000-$3F:FFFF; $20:8000->$100000 $21:8000->$108000"},
+		{0x20, 0x3F, 0x6000, 0x7FFF, clsSRAM, 0xE00000, page8K, "SRAM access: $20:6000-$3F:7FFF; $21:6000->$E02000 $3F:7FFF->$E3FFFF"},
+		lowWRAM(0x20, 0x3F),
+		{0x00, 0x1F, 0x8000, 0xFFFF, clsROM, 0x000000, half32K, "ROM access: $00:8000-$1F:FFFF; $00:8000->$000000 $1F:FFFF->$0FFFFF"},
+		lowWRAM(0x00, 0x1F),
+	},
+	"exhirom": {
+		{0xC0, 0xFF, 0x0000, 0xFFFF, clsROM, 0x000000, full64K, "program area 1 ROM access: $C0:0000-$FF:FFFF; $C0:0000->$000000 $FF:FFFF->$3FFFFF"},
+		{0xA0, 0xBF, 0x8000, 0xFFFF, clsROM, 0x100000, half32K, "program area 1 ROM access: $A0:8000-$BF:FFFF; $A0:8000->$100000"},
+		{0xA0, 0xBF, 0x6000, 0x7FFF, clsSRAM, 0xE00000, page8K, "SRAM access: $A0:6000-$BF:7FFF; $A1:6000->$E02000 $BF:7FFF->$E3FFFF"},
+		lowWRAM(0xA0, 0xBF),
+		{0x80, 0x9F, 0x8000, 0xFFFF, clsROM, 0x000000, half32K, "program area 1 ROM access: $80:8000-$9F:FFFF; $80:8000->$000000 $81:8000->$008000"},
+		lowWRAM(0x80, 0x9F),
+		wram7E(),
+		{0x40, 0x7D, 0x0000, 0xFFFF, clsROM, 0x400000, full64K, "program area 2 ROM access: $40:0000-$7D:FFFF; $40:0000->$400000 $7D:FFFF->$7DFFFF"},
+		{0x3E, 0x3F, 0x8000, 0xFFFF, clsROM, 0x5F0000, half32K, "program area 3 ROM access: $3E:8000-$3F:FFFF; $3E:8000->$5F0000 $3F:8000->$5F8000"},
+		lowWRAM(0x3E, 0x3F),
+		{0x20, 0x3D, 0x8000, 0xFFFF, clsROM, 0x500000, half32K, "program area 2 ROM access: $20:8000-$3D:FFFF; $20:8000->$500000 $21:8000->$508000"},
+		lowWRAM(0x20, 0x3D),
+		{0x00, 0x1F, 0x8000, 0xFFFF, clsROM, 0x400000, half32K, "program area 2 ROM access: $00:8000-$1F:FFFF; $00:8000->$400000 $1F:FFFF->$4FFFFF"},
+		lowWRAM(0x00, 0x1F),
+	},
+	"sa1rom": {
+		{0xC0, 0xFF, 0x0000, 0xFFFF, clsROM, 0x000000, full64K, "C0..FF ROM area CX, DX, EX, FX: linearly mapped to banks $00..3F of linear ROM"},
+		{0x80, 0xBF, 0x8000, 0xFFFF, clsROM, 0x200000, half32K, "80..BF ROM (EX, FX); $80:8000->$200000 $BF:FFFF->$3FFFFF"},
+		{0x80, 0xBF, 0x6000, 0x7FFF, clsSRAM, 0xE00000, image8K, "80..BF BW-RAM image dynamically selects a single $2000 sized block"},
+		lowWRAM(0x80, 0xBF),
+		wram7E(),
+		{0x44, 0x4F, 0x0000, 0xFFFF, clsSRAM, 0xE00000, image8K, "44..4F BW-RAM image, a single $2000 sized block; $44:2000->$E00000 $4F:FFFF->$E01FFF"},
+		{0x40, 0x43, 0x0000, 0xFFFF, clsSRAM, 0xE00000, full64K, "40..43 BW-RAM area: linearly mapped; $40:0000->$E00000 $43:FFFF->$E3FFFF"},
+		{0x00, 0x3F, 0x8000, 0xFFFF, clsROM, 0x000000, half32K, "00..3F ROM for CX, DX; $00:8000->$000000 $3F:FFFF->$1FFFFF"},
+		{0x00, 0x3F, 0x6000, 0x7FFF, clsSRAM, 0xE00000, image8K, "00..3F BW-RAM image dynamically selects a single $2000 sized block"},
+		lowWRAM(0x00, 0x3F),
+	},
+}
+
+// findRegion returns the unique documented row covering n (nil: no region documented there);
+// two covering rows are a defect of the table itself, reported as such.
+func findRegion(tbl []region, n uint32) (*region, string) {
+	bank, offs := n>>16, n&0xFFFF
+	var hit *region
+	for i := range tbl {
+		if tbl[i].covers(bank, offs) {
+			if hit != nil {
+				return nil, fmt.Sprintf("TABLE ERROR rows overlap at %06x: {%s} and {%s}", n, hit.doc, tbl[i].doc)
+			}
+			hit = &tbl[i]
+		}
+	}
+	return hit, ""
+}
+
+func regionClause(tbl []region, b2p mapFn) func(n uint32) string {
+	return func(n uint32) string {
+		r, terr := findRegion(tbl, n)
+		if terr != "" {
+			return terr
+		}
+		p, err := b2p(n)
+		if r == nil {
+			if err == nil {
+				return fmt.Sprintf("bus %06x -> pak %06x but no region is documented there (want 0, ErrUnmappedAddress)", n, p)
+			}
+			return ""
+		}
+		want := r.place(n>>16, n&0xFFFF)
+		if pclass(want) != r.class || !inWindow(want) {
+			return fmt.Sprintf("TABLE ERROR row {%s} places %06x at %06x outside the %s window", r.doc, n, want, className[r.class])
+		}
+		if err != nil {
+			return fmt.Sprintf("bus %06x -> (%06x,%v) but the region table says %s, pak %06x {%s}", n, p, err, className[r.class], want, r.doc)
+		}
+		if p != want {
+			return fmt.Sprintf("bus %06x -> pak %06x (%s +%06x) but the region table says pak %06x (%s +%06x) {%s}",
+				n, p, className[pclass(p)], p-classBase(p), want, className[r.class], want-classBase(want), r.doc)
+		}
+		return ""
+	}
+}
+
+func classBase(p uint32) uint32 {
+	switch pclass(p) {
+	case clsROM:
+		return 0
+	case clsSRAM:
+		return 0xE00000
+	case clsWRAM:
+		return 0xF50000
+	}
+	return 0
+}
+
 // mapcheck: the C04/C05 clauses stated directly against the compiled functions (falsifier).
 func mapCheck(name string) int {
 	m := mappers[name]
@@ -163,6 +337,7 @@ func mapCheck(name string) int {
 		}},
 		{"C05.page_b2p", page(b2p)},
 		{"C05.page_p2b", page(p2b)},
+		{"C05.region_table", regionClause(regionTables[name], b2p)},
 	}
 	rc := 0
 	for _, c := range clauses {
